@@ -49,6 +49,9 @@ MUTANTS = [
     ("C02", "processor/variable_processor.py", "    if var_name.startswith(\"_\"):\n        return ['protected']", "    if var_name.startswith(\"_\"):\n        return ['private']"),
     ("C10", "processor/context/action_context.py", "        if isinstance(result, BaseException):\n", "        if isinstance(result, BaseException) and False:\n"),
     ("C10", "utils.py", '("yes", "true", "t", "1", "y")', '("yes", "true", "t", "1", "y", "on")'),
+    ("C19", "config/config_service.py", "            if callable(attr):\n                return attr()\n", ""),
+    ("C19", "config/config_service.py", "                        return from_env\n", "                        return from_env.strip()\n"),
+    ("C19", "config/config_service.py", "            if attr is None:\n                from deep import config", "            if True:\n                from deep import config"),
     ("C19", "utils.py", '("yes", "true", "t", "1", "y")', '("yes", "true", "1", "y")'),
     ("C11", "api/tracepoint/trigger.py", "        SPAN: args[SPAN],\n        FIRE_COUNT: args.get(FIRE_COUNT, '1'),", "        SPAN: args[SPAN],\n        FIRE_COUNT: args.get(FIRE_COUNT, '-1'),"),
     ("C11", "api/tracepoint/trigger.py", "    if STAGE in args:\n        stage_ = args[STAGE]", "    if STAGE in args and SPAN not in args:\n        stage_ = args[STAGE]"),
